@@ -852,8 +852,11 @@ def separate_rule(ctx, d6):
                 okk, why = False, 'the amount subtracted (%s) is not the operand data' % vt
             elif same_pkg is False:
                 # cross-package: positions through CAS numbers of exactly the entries subtracted
+                tbl = _cas_table_of_remap(p, a, o)
                 if not ('.indices(' in a.target and 'CASs' in a.target):
                     okk, why = False, 'cross-package subtraction does not remap positions through CAS numbers (%s)' % a.target
+                elif tbl is not True:
+                    okk, why = False, tbl
                 else:
                     rhs_idx = [src(x.slice) for x in ast.walk(a.stmt.value) if isinstance(x, ast.Subscript)]
                     comp = [x for x in ast.walk(a.stmt.target) if isinstance(x, ast.Name)]
@@ -888,6 +891,28 @@ def separate_rule(ctx, d6):
         d6.ok('Stream.separate_out', 'delegates once to self._imol.separate_out(other._imol)', g)
     else:
         d6.fail('Stream.separate_out', 'delegate', 'material subtraction is not delegated exactly once', g, g.node)
+
+
+def _cas_table_of_remap(p, a, o):
+    """the receiver positions of a cross-package subtraction are `<receiver chemicals>.indices([T[i] for i in <operand index>])`: the
+    table T that turns operand positions into CAS numbers must be the OPERAND's (its positions index it), and the lookup must be made
+    in the receiver's chemicals.  Locals are read through their definitions on this path.  True, or the reason it is not so."""
+    from ..resolve import resolved, path_defs
+    defs = path_defs(p, before=a)
+    t = resolved(a.stmt.target, defs)
+    calls = [c for c in ast.walk(t) if isinstance(c, ast.Call) and isinstance(c.func, ast.Attribute) and c.func.attr == 'indices']
+    if len(calls) != 1 or len(calls[0].args) != 1 or not isinstance(calls[0].args[0], ast.ListComp):
+        return True          # another shape: the other clauses of this rule judge it
+    recv = src(calls[0].func.value)
+    if recv not in ('self._chemicals', 'self.chemicals'):
+        return 'cross-package subtraction looks the CAS numbers up in %s, not in the receiver\'s chemicals' % recv
+    elt = calls[0].args[0].elt
+    if not (isinstance(elt, ast.Subscript)):
+        return True
+    table = src(elt.value)
+    if table not in ('%s.chemicals.CASs' % o, '%s._chemicals.CASs' % o):
+        return 'operand positions are turned into CAS numbers through %s, not through the operand\'s own table (%s.chemicals.CASs)' % (table, o)
+    return True
 
 
 LOSSY = {'frozenset', 'set', 'sorted', 'len', 'hash', 'sum', 'min', 'max', 'str', 'repr', 'id'}
